@@ -101,7 +101,7 @@ pub fn check(case: &C18Case) -> CaseOutcome
     // (signal, boundary, optional second signal at a later boundary)
     let mut plans: Vec<(i32, u64, Option<(i32, u64)>)> = Vec::new();
     // (full plan text, signal, boundary of the signal): an injected lock-write failure precedes the signal
-    let mut fault_plans: Vec<(String, i32, u64)> = Vec::new();
+    let mut fault_plans: Vec<(String, i32, u64, u8)> = Vec::new();
     match case.only
     {
         Some(p) => plans.push((p.0, p.1, None)),
@@ -123,7 +123,19 @@ pub fn check(case: &C18Case) -> CaseOutcome
                     {
                         if (j - t.k) % 2 == 1 || j - t.k < 12
                         {
-                            fault_plans.push((format!("fail:{}:ENOSPC;sig:{}:{}", t.k, j, if j % 2 == 0 { 15 } else { 2 }), if j % 2 == 0 { 15 } else { 2 }, j));
+                            fault_plans.push((format!("fail:{}:ENOSPC;sig:{}:{}", t.k, j, if j % 2 == 0 { 15 } else { 2 }), if j % 2 == 0 { 15 } else { 2 }, j, 1));
+                        }
+                    }
+                }
+                // a source file that cannot be moved into place (its IDs are spent), followed by a stop request
+                for t in ops.iter().filter(|t| t.kind == "rename" && is_src_file(&t.path2))
+                {
+                    for j in (t.k + 1)..=k_total
+                    {
+                        if (j - t.k) % 3 == 1 || j - t.k < 10
+                        {
+                            let sg = if j % 2 == 0 { 2 } else { 15 };
+                            fault_plans.push((format!("fail:{}:{};sig:{}:{}", t.k, if t.k % 2 == 0 { "EXDEV" } else { "EACCES" }, j, sg), sg, j, 2));
                         }
                     }
                 }
@@ -142,7 +154,7 @@ pub fn check(case: &C18Case) -> CaseOutcome
     }
     let mut seen = std::collections::BTreeSet::new();
     // unify: (plan text, first signal, its boundary, second signal, preceded by an injected lock-write failure)
-    let mut all_plans: Vec<(String, i32, u64, Option<(i32, u64)>, bool)> = plans
+    let mut all_plans: Vec<(String, i32, u64, Option<(i32, u64)>, u8)> = plans
         .iter()
         .map(|(sig, k, second)| {
             let text = match second
@@ -150,29 +162,34 @@ pub fn check(case: &C18Case) -> CaseOutcome
                 None => format!("sig:{}:{}", k, sig),
                 Some((s2, k2)) => format!("sig:{}:{};sig:{}:{}", k, sig, k2, s2),
             };
-            (text, *sig, *k, *second, false)
+            (text, *sig, *k, *second, 0u8)
         })
         .collect();
-    for (text, sig, k) in &fault_plans
+    for (text, sig, k, what) in &fault_plans
     {
-        all_plans.push((text.clone(), *sig, *k, None, true));
+        all_plans.push((text.clone(), *sig, *k, None, *what));
     }
     let n_plans = all_plans.len();
-    for (plan, sig, k, second, after_fault) in &all_plans
+    for (plan, sig, k, second, fault_kind) in &all_plans
     {
         let plan = plan.clone();
+        let after_fault = &(*fault_kind != 0);
         if second.is_some()
         {
             o.class("two-signals");
         }
-        if *after_fault
+        if *fault_kind == 1
         {
             o.class("signal-after-failed-lock-write");
+        }
+        if *fault_kind == 2
+        {
+            o.class("signal-after-failed-source-rename");
         }
         let fr = fault_run(&tree, case.check_mode, Some(plan.clone()), None);
         o.evals += 1;
         let delivered = fr.run.trace.iter().any(|t| t.kind == "SIGNAL");
-        if *after_fault && !fr.run.trace.iter().any(|t| t.inj == "fail" && t.kind == "rename" && t.path2.ends_with("/Breadlog.lock"))
+        if *after_fault && !fr.run.trace.iter().any(|t| t.inj == "fail" && t.kind == "rename" && if *fault_kind == 1 { t.path2.ends_with("/Breadlog.lock") } else { t.path2.contains("/proj/src/") && t.path2.ends_with(".rs") })
         {
             // the operation order of THIS run differed from the recording run's: the injected failure
             // hit something other than a lock-file write, which is not this plan's subject
@@ -193,7 +210,7 @@ pub fn check(case: &C18Case) -> CaseOutcome
             match (second, after_fault)
             {
                 (Some((s2, k2)), _) => format!(" and {} before op {}", sig_name(*s2), k2),
-                (None, true) => format!(" after an injected failure of a lock-file write (plan {})", plan),
+                (None, true) => format!(" after an injected failure of a {} (plan {})", if *fault_kind == 1 { "lock-file write" } else { "source-file rename" }, plan),
                 (None, false) => String::new(),
             },
             if case.check_mode { "--check" } else { "edit" }
@@ -275,7 +292,7 @@ pub fn check(case: &C18Case) -> CaseOutcome
                             {
                                 break;
                             }
-                            if t.kind == "open" && t.ret >= 0 && is_src_file(&t.path)
+                            if t.kind == "open" && t.ret >= 0 && t.path.contains("/proj/src/") && t.path.ends_with(".rs")
                             {
                                 opened.insert(t.path.as_str());
                             }
@@ -405,7 +422,7 @@ pub fn run(env: &Env, rec: &Recorder) -> (String, Vec<&'static str>)
     pbt_opts(env, rec, "signals", env.cases(40, 1000), 30, &strategy, &check);
     rec.set_exhaustive(true);
     (
-        "trees of 2-8 source files (some needing insertions, some not), both modes, standard input /dev/null or (one case in three) a terminal, both styles, cache on/off, lock absent/consistent; a recording run gives the K counted operations (file system calls on project and TMPDIR paths AND every line written to standard output / standard error); then for each of SIGTERM and SIGINT and EVERY boundary k in 1..=K+1 the signal is delivered immediately before operation k (LD_PRELOAD shim, thread-directed so that the handler has run before the operation starts), plus, for every boundary from the start of discovery on, a pair of signals (the second one 1-3 operations later), plus (edit mode) every lock-file write failed once (ENOSPC) followed by a signal at the later boundaries, each on a fresh copy. Oracle from the start of source discovery on: the process exits by itself; after the signal it starts work on at most one more source file (judged when a probe run over eight 400 KB files and the case's own runs show a subject that has one source file open at a time; a subject that works on several files at once finishes those); exit 0 only if nothing was left to do (edit: a following --check passes; check: no reference missing and every source file had been opened before the signal arrived); every source file untouched or a complete update; with the cache on and >= 1 file updated a parsable lock with next > every ID inserted. Before discovery: the process may be killed but then nothing is modified. exhaustive=true: all boundaries of each generated tree. Non-trivial = distinct (tree, mode, signal, boundary) strictly between the first and last source-file operation on a tree with >= 2 files needing work".to_string(),
+        "trees of 2-8 source files (some needing insertions, some not), both modes, standard input /dev/null or (one case in three) a terminal, both styles, cache on/off, lock absent/consistent; a recording run gives the K counted operations (file system calls on project and TMPDIR paths AND every line written to standard output / standard error); then for each of SIGTERM and SIGINT and EVERY boundary k in 1..=K+1 the signal is delivered immediately before operation k (LD_PRELOAD shim, thread-directed so that the handler has run before the operation starts), plus, for every boundary from the start of discovery on, a pair of signals (the second one 1-3 operations later), plus (edit mode) every lock-file write failed once (ENOSPC), and every rename onto a source file failed (EXDEV/EACCES), each followed by a signal at the later boundaries, each on a fresh copy. Oracle from the start of source discovery on: the process exits by itself; after the signal it starts work on at most one more source file (judged when a probe run over eight 400 KB files and the case's own runs show a subject that has one source file open at a time; a subject that works on several files at once finishes those); exit 0 only if nothing was left to do (edit: a following --check passes; check: no reference missing and every source file had been opened before the signal arrived); every source file untouched or a complete update; with the cache on and >= 1 file updated a parsable lock with next > every ID inserted. Before discovery: the process may be killed but then nothing is modified. exhaustive=true: all boundaries of each generated tree. Non-trivial = distinct (tree, mode, signal, boundary) strictly between the first and last source-file operation on a tree with >= 2 files needing work".to_string(),
         vec!["signals are delivered synchronously at libc call boundaries (kill(getpid()) from the interposer); asynchronous delivery inside a system call is not enumerated", "the harness resets SIGINT/SIGTERM to SIG_DFL in the child so that an inherited SIG_IGN cannot mask a missing handler"],
     )
 }
